@@ -288,8 +288,52 @@ PROPS["C16"] = dict(
 )
 
 
+def _c12_native_findings(dst, tier, seed, ev):
+    """Native replay of the recorded C12 findings (counting global allocator around AsepriteFile::read) against the
+    current tree: the files of fixed findings must stay within the bound (a regression is a VIOLATION), the file of the
+    known, unrepaired finding K1 is reported as KNOWN-FINDING. This step replays concrete recorded inputs; it decides
+    nothing new (the deciding step of C12 is the solver run above)."""
+    import os, subprocess, shutil, json
+    ex = os.path.join(dst, "examples")
+    os.makedirs(ex, exist_ok=True)
+    shutil.copy(os.path.join(VERIF_DIR, "findings", "vk_alloc.rs"), os.path.join(ex, "vk_alloc.rs"))
+    env = dict(os.environ, CARGO_NET_OFFLINE="true", CARGO_TARGET_DIR=os.path.join(os.path.dirname(dst), "native_target"))
+    env.pop("RUSTFLAGS", None)
+    b = subprocess.run(["cargo", "build", "--offline", "--release", "--example", "vk_alloc", "--quiet"], cwd=dst, env=env,
+                       stdout=subprocess.PIPE, stderr=subprocess.STDOUT, text=True)
+    if b.returncode != 0:
+        return 2, ["INCONCLUSIVE property=C12 native replay program failed to build: " + b.stdout[-400:].replace("\n", " | ")], {}
+    known = json.load(open(os.path.join(VERIF_DIR, "known_findings.json")))["findings"]
+    files = {"m_raw_cel_declares_4gb.ase": "F11", "n_zlib_cel_declares_4gb.ase": "F11", "o_external_files_count_16m.ase": "F11",
+             "p_chunk_declares_1gb.ase": "F11", "q_cel_table_growth.ase": "K1"}
+    lines, rc, rows = [], 0, []
+    for fn, fid in sorted(files.items()):
+        path = os.path.join(VERIF_DIR, "findings", fn)
+        r = subprocess.run([os.path.join(env["CARGO_TARGET_DIR"], "release", "examples", "vk_alloc"), path], stdout=subprocess.PIPE,
+                           stderr=subprocess.STDOUT, text=True, timeout=300)
+        out = r.stdout.strip()
+        rows.append(out[-220:])
+        exceeds = "EXCEEDS" in out or r.returncode != 0
+        if not exceeds:
+            continue
+        ent = [k for k in known if k["id"] == fid][0]
+        if ent["status"] == "known":
+            lines.append("KNOWN-FINDING: property=C12 %s [%s]" % (ent["what"][:300], out[-160:]))
+        else:
+            rd = os.path.join(VERIF_DIR, "replays", "C12", fn)
+            os.makedirs(rd, exist_ok=True)
+            shutil.copy(path, rd)
+            shutil.copy(os.path.join(VERIF_DIR, "findings", "vk_alloc.rs"), rd)
+            open(os.path.join(rd, "measurement.txt"), "w").write(out + "\n")
+            lines.append("VIOLATION property=C12 replay=%s" % rd)
+            lines.append("  recorded input of fixed finding %s exceeds the bound again: %s" % (fid, out[-200:]))
+            rc = 1
+    return rc, lines, dict(native_replay_of_recorded_findings=rows)
+
+
 PROPS["C12"] = dict(
     prefix="c12_",
+    post=_c12_native_findings,
     overlays=[("lib.rs", "vk_c12.rs")],
     bounds="largest single Vec::with_capacity request (recorded by a stub) for: a raw image cel with declared width x height over all "
            "of u16 x u16 in a 24-byte chunk; an external-files chunk with entry count over all of u32; a tags chunk with count over all of u16",
